@@ -7,6 +7,7 @@ import (
 	"fmt"
 	"os"
 	"path/filepath"
+	"runtime"
 	"strings"
 	"sync"
 	"syscall"
@@ -663,6 +664,9 @@ func replay(cf *evid.CaseFile) error {
 		}
 		return raceOracle(&c)
 	}
+	if cf.Sub == "flood" {
+		return fmt.Errorf("a failure of the refuse flood is reproduced by ./check C16 quick")
+	}
 	if cf.Sub == "retry" {
 		var c RetryCase
 		if err := evid.Decode(cf.Gob, &c); err != nil {
@@ -685,8 +689,52 @@ func replay(cf *evid.CaseFile) error {
 	return readOracle(&c)
 }
 
+// refuseFlood: thousands of Flush calls that must be refused (the path
+// exists).  Refusing must not cost anything that is not given back.
+func refuseFlood(t *testing.T, n int) {
+	dir := fix.CaseDir()
+	defer os.RemoveAll(dir)
+	path := filepath.Join(dir, "exists.updog")
+	if _, err := fix.BuildAt(path, []model.Row{{"a": "1"}}, fix.WMemFile); err != nil {
+		panic("INFRA: " + err.Error())
+	}
+	before, _ := digest(path)
+	w := updog.NewIndexWriter(path)
+	w.AddRow(map[string]string{"x": "y"})
+	fix.Safe(w.Flush)
+	runtime.GC()
+	fd0, g0 := fix.FDCount(0), runtime.NumGoroutine()
+	refused := 0
+	for i := 0; i < n; i++ {
+		ww := w
+		if i%3 == 0 {
+			ww = updog.NewIndexWriter(path)
+			ww.AddRow(map[string]string{"x": fmt.Sprint(i)})
+		}
+		if err := fix.Safe(ww.Flush); err != nil {
+			refused++
+		}
+	}
+	runtime.GC()
+	fd1, g1 := fix.FDCount(0), runtime.NumGoroutine()
+	after, _ := digest(path)
+	c := &ClobberCase{Pre: PIndex, Random: []byte{1}}
+	evid.Case(true, fmt.Sprintf("refuse flood: %d Flush calls onto an existing index, %d refused; descriptors %d -> %d, goroutines %d -> %d", n, refused, fd0, fd1, g0, g1), "refuse-flood")
+	switch {
+	case refused != n:
+		fix.Fail(t, prop, "flood", c, "refuse flood", fmt.Errorf("%d of %d Flush calls onto an existing file returned no error", n-refused, n))
+	case after != before:
+		fix.Fail(t, prop, "flood", c, "refuse flood", fmt.Errorf("the existing file changed during %d refused Flush calls: %s -> %s", n, before, after))
+	case fd0 >= 0 && fd1 > fd0+8:
+		fix.Fail(t, prop, "flood", c, "refuse flood", fmt.Errorf("after %d refused Flush calls the process holds %d open descriptors, %d before", n, fd1, fd0))
+	case g1 > g0+8:
+		fix.Fail(t, prop, "flood", c, "refuse flood", fmt.Errorf("after %d refused Flush calls the process has %d goroutines, %d before", n, g1, g0))
+	}
+}
+
 func TestQuick(t *testing.T) {
 	fix.Pinned(t, prop, replay)
+	refuseFlood(t, 3000)
 	fix.Check(t, "clobber", 300, func(rt *rapid.T) { runClobber(rt, drawClobber(rt)) })
 	fix.Check(t, "retry", 120, func(rt *rapid.T) { runRetry(rt, drawRetry(rt)) })
 	fix.Check(t, "read", 300, func(rt *rapid.T) { runRead(rt, drawRead(rt)) })
